@@ -124,8 +124,8 @@ PROPS = {
         all_labels_in_scope=True,
         thorough=True,
         explanation='Item::size == points, Item::traverse == nth_point (depth first, top first), Item::equals == deep_eq, Item::contains == first_pos (with the lemma: the point at first_pos is deep-equal to the pattern, '
-                    'i.e. POSITION returns an index at which EXTRACT returns the searched item), Item::insert / CODE.INSERT: for every index inside the item, nth_point(result, i) is the inserted item, i.e. a following CODE.EXTRACT at i yields it (index 0 replaces the whole item); CODE.SIZE/EXTRACT/POSITION/CONTAINS/MEMBER/LENGTH/NULL/ATOM/CAR/CDR/CONS/LIST/FROM* rows (CONTAINS / MEMBER: TRUE exactly when some point of the container is deep-equal to the other operand); CODE.DISCREPANCY == discrepancy_of (position-wise mismatches of the printed forms + difference of the lengths for two lists, 0 / 1 otherwise) with the lemmas `discrepancy_of(a, b) == discrepancy_of(b, a)` and `discrepancy_of(a, a) == 0` (the property\'s "symmetric and zero for identical items"); CODE.= pushes whether the printed forms agree; CODE.NTH: index modulo (length + 1), 0 = the whole expression, i > 0 = the i-th element (as the repository\'s test pins it); Item::substitute / CODE.SUBST: every structural (deep-equal) match of the pattern below the root becomes the substitute and nothing else changes (recursive relation subst_ok), a match at the root gives the substitute itself; Item::container / CODE.CONTAINER: the list that directly holds the first depth-first occurrence of the pattern (container_of), an empty list when there is none, with the lemma that this container is a list one of whose own elements matches the pattern',
-        not_decided=['CODE.INSERT: "changes nothing outside the replaced subtree" is proved only as far as kinds, the top-level length and the rest of the CODE stack go (no sibling-by-sibling frame); a negative or too large index is a no-op '
+                    'i.e. POSITION returns an index at which EXTRACT returns the searched item), Item::insert / CODE.INSERT: for every index inside the item, nth_point(result, i) is the inserted item, i.e. a following CODE.EXTRACT at i yields it (index 0 replaces the whole item), and nothing outside the replaced subtree changes (recursive relation ins_ok: on the path to the point the lists keep their lengths, every sibling is structurally the same); CODE.SIZE/EXTRACT/POSITION/CONTAINS/MEMBER/LENGTH/NULL/ATOM/CAR/CDR/CONS/LIST/FROM* rows (CONTAINS / MEMBER: TRUE exactly when some point of the container is deep-equal to the other operand); CODE.DISCREPANCY == discrepancy_of (position-wise mismatches of the printed forms + difference of the lengths for two lists, 0 / 1 otherwise) with the lemmas `discrepancy_of(a, b) == discrepancy_of(b, a)` and `discrepancy_of(a, a) == 0` (the property\'s "symmetric and zero for identical items"); CODE.= pushes whether the printed forms agree; CODE.NTH: index modulo (length + 1), 0 = the whole expression, i > 0 = the i-th element (as the repository\'s test pins it); Item::substitute / CODE.SUBST: every structural (deep-equal) match of the pattern below the root becomes the substitute and nothing else changes (recursive relation subst_ok), a match at the root gives the substitute itself; Item::container / CODE.CONTAINER: the list that directly holds the first depth-first occurrence of the pattern (container_of), an empty list when there is none, with the lemma that this container is a list one of whose own elements matches the pattern',
+        not_decided=['CODE.INSERT: a negative or too large index is a no-op '
                      '(pinned by the repository\'s test), not the modulo the documentation of EXTRACT describes: clause fired.extract-after-insert.out-of-range-index, known finding',
                      'CODE.= / EXEC.= / CODE.DISCREPANCY compare PRINTED forms (Display): proved relative to `str_of`, an uninterpreted function of the item (R11); that two different items never print alike is not claimed',
                      'CODE.APPEND: operand handling and footprint only (it builds a two-element list, which is the documented append only for atoms; CODE.APPEND is not among the instructions the property lists)'],
